@@ -13,6 +13,11 @@ Last sentence (model binned to the observation, element by element): spec/ObsBin
       checks it for narrow channels + broad bands (overlapping, nested, gapped bins, edges that do not
       ascend with the centres) in every row order, refutes the slips and exports (rows, native model,
       exact binned model) vectors; 4-column trace events carry a random native model decided by TLC.
+Histories: spec/BinnerHistory.tla (one long-lived binner: any sequence of bindown / bin_model / generate_spectrum_output leaves
+      it the binner it was; design mutants "memo keyed on length / ends", "widths converted in place" refuted); TLC's operation
+      sequences (every ordered pair + longer random ones) replayed on observation.create_binner() for the three sources:
+      exposed centres / widths stay the observation's, the binned model stays TLC's exact value, every call equals a fresh
+      create_binner()'s (harness/fx_binnerhist.py) + canary on the harness's own mutants of the real FluxBinner.
 """
 import itertools
 import os
@@ -379,6 +384,93 @@ def run_traces(ctx, nloads):
         raise Machinery('canary accepted: trace validation is vacuous (%r)' % (bad2,))
 
 
+# ----------------------------------------------------------------------------
+# histories of the observation's binner (spec/BinnerHistory.tla)
+# ----------------------------------------------------------------------------
+HIST_CLAUSE = dict(exposed='binner_stays_on_observation', wlwidth='binner_stays_on_observation', obs='binner_stays_on_observation',
+                   values='model_binned_over_own_centre_and_width', tau='model_binned_over_own_centre_and_width')
+
+
+def history_rows(A, ncol, rng):
+    """Rows (wavelength um, value, error[, width um]) of an observation whose bins are the target bins of the
+    BinnerHistory alphabet (centre c cm-1, full width w cm-1: wl = 10000/c, width = w wl^2/10000), in random row order."""
+    wl = 10000.0 / A.tc
+    arr = np.column_stack([wl, [float(rng.randint(1, 900)) for _ in wl], [float(rng.randint(1, 90)) for _ in wl], A.tw * wl * wl / 10000.0])
+    order = list(range(len(wl)))
+    rng.shuffle(order)
+    return arr[order][:, :ncol]
+
+
+def run_binner_histories(ctx, only=None):
+    """The last sentence over HISTORIES: observation -> create_binner() -> any sequence of bindown / bin_model /
+    generate_spectrum_output (what the program and Optimizer.generate_solution do with the observation's binner) -- after every
+    call the binner still exposes exactly the observation's centres and widths, the binned model is still the model over each
+    element's own bin (TLC, exact), the call returns what a fresh create_binner() returns, and the observation is untouched."""
+    from .. import fx_binnerhist as BH
+    q = ctx.tier == 'quick'
+    rng = random.Random(ctx.seed * 7919 + 1717)
+    if only is None:
+        BH.check_design(ctx, thorough=not q)
+        A, walks = BH.generate(ctx, thorough=not q)
+        longer = [w for w in walks if w['src'] == 'walk']
+        pairs = [w for w in walks if w['src'] == 'pair']
+        some = longer + pairs[ctx.seed % 4::4]
+        todo = [('array', 4, walks), ('text', 4, some), ('hdf5', 4, some), ('array', 3, some)]
+    else:
+        A, walks = BH.generate(ctx, thorough=any(o['g'] > 4 for v in only for o in v['ops']), nwalks=20, unit=only[0].get('unit'))
+        todo = [(v['source'], v['ncol'], [dict(ops=v['ops'], src='replay', flux=[], simple=[])]) for v in only]
+    n = 0
+    with tempfile.TemporaryDirectory(prefix='c17h_') as tmpdir:
+        for source, ncol, ws in todo:
+            arr = history_rows(A, ncol, rng)
+            state = {}
+
+            def reload():
+                state['obs'] = load(source, arr, tmpdir)
+                state['o0'] = {k: np.array(v, copy=True) for k, v in observe(state['obs']).items()}
+            try:
+                reload()
+            except Exception as exn:
+                ctx.verdict('rows_stay_together', False, cls='%s:%dcol:history' % (source, ncol), detail='exception %r' % exn,
+                            vector=dict(binner_history=True, source=source, ncol=ncol, ops=[], unit=A.U))
+                continue
+            o0 = state['o0']
+            # 4 columns: the loaded bins are the alphabet's (up to rounding of 10000/(10000/c)), so TLC's exact values apply
+            onlat = ncol == 4 and o0['wn'].shape == A.c.shape and np.allclose(o0['wn'], A.c, rtol=1e-12, atol=0) and np.allclose(o0['wid'], A.w, rtol=1e-9, atol=0)
+            if ncol == 4 and not onlat and not ctx.has_violations():
+                raise Machinery('history observation (%s) is not on the bins of the alphabet: %r %r' % (source, o0['wn'].tolist(), o0['wid'].tolist()))
+            it = BH.replay(A, 'flux', lambda: state['obs'].create_binner(), ws, ref=lambda: (state['o0']['wn'], state['o0']['wid']),
+                           tol=1e-9 if onlat else None)
+            for w, problems in it:
+                ops = w['ops']
+                n += 1
+                now = observe(state['obs'])
+                changed = [k for k in now if not np.array_equal(now[k], state['o0'][k], equal_nan=True)]
+                if changed:
+                    problems = problems + [(len(ops) - 1, 'obs', 'the observation itself changed while its binner was used: %s' % ', '.join(changed))]
+                    reload()
+                vec = dict(binner_history=True, source=source, ncol=ncol, ops=ops, unit=A.U)
+                by = {}
+                for j, tag, detail in problems:
+                    by.setdefault(HIST_CLAUSE.get(tag, 'binner_history_independent'), (j, tag, detail))
+                clauses = {'binner_stays_on_observation', 'binner_history_independent'} | ({'model_binned_over_own_centre_and_width'} if onlat else set())
+                for c in sorted(clauses | set(by)):
+                    if c in by:
+                        j, tag, detail = by[c]
+                        ctx.verdict(c, False, cls='%s:%dcol:%s' % (source, ncol, BH.failure_class(A, 'flux', ops, j)), vector=vec,
+                                    detail='observation -> create_binner() -> %s: call %d (%s) -- %s' % (BH.trail(ops), j + 1, tag, detail))
+                    else:
+                        ctx.verdict(c, True, cls='%s:%dcol:history' % (source, ncol), vector=vec)
+    if only is None:
+        # the doubles are built on the real FluxBinner: once the real binner fails the canary concludes nothing
+        ncan = BH.canary(A, walks) if not ctx.has_violations() else 0
+        ctx.traces += n
+        ctx.note('binner histories: %d operation sequences (all %d ordered pairs of %d operations + %d longer ones) replayed on the binner of observations '
+                 'loaded from array / text / hdf5 (4 columns, bins = the alphabet\'s) and array (3 columns); canary: %d sequences on the harness\'s own mutants'
+                 % (n, len(pairs), len(A.table['flux']), len(longer), ncan))
+        ctx.add_sample(dict(binner_history=walks[-1]['ops'], exposes=walks[-1]['flux']))
+
+
 def run(ctx):
     q = ctx.tier == 'quick'
     t = ctx.tier
@@ -432,13 +524,17 @@ def run(ctx):
     ctx.add_sample(dict(vector={k: v4[len(v4) // 2][k] for k in ('rows', 'ncol', 'nat', 'f', 'modA', 'geoA')}))
     ctx.note('%d exported (rows, native model, exact binned model) vectors: narrow channels and broad bands, every row order' % nm)
     run_traces(ctx, 150 if q else 1500)
+    run_binner_histories(ctx)
 
 
 def replay(ctx, violations):
+    hist = [v['vector'] for v in violations if v['vector'] and v['vector'].get('binner_history') and v['vector'].get('ops')]
+    if hist:
+        run_binner_histories(ctx, only=hist)
     with tempfile.TemporaryDirectory(prefix='c17_') as tmpdir:
         for v in violations:
             vec = v['vector']
-            if not vec:
+            if not vec or vec.get('binner_history'):
                 continue
             if vec.get('trace'):
                 nv = vec.get('native')
